@@ -33,7 +33,8 @@ type pdInput struct {
 	Var     pdVar  `json:"var"`
 	Deflate bool   `json:"deflate"`
 	Before  string `json:"before"`
-	Rawview bool   `json:"rawview"`
+	Rawview   bool   `json:"rawview"`
+	Transport string `json:"transport"`
 }
 type pdCfg struct {
 	IssuerCfg bool `json:"issuerCfg"`
@@ -127,6 +128,28 @@ func (Predecode) Run(c *orch.Case) *orch.Outcome {
 	enc := idp.Encode(doc, in.Deflate)
 	if in.Rawview {
 		enc = base64.StdEncoding.EncodeToString(rawViewStream(in.Kind, doc))
+	}
+	switch in.Transport {
+	case "nopad":
+		// (trailing newlines after the root are added until the standard encoding has padding to lose)
+		for n := 0; n < 8 && !strings.HasSuffix(enc, "="); n++ {
+			doc = append(doc, '\n')
+			enc = idp.Encode(doc, in.Deflate)
+		}
+		enc = strings.TrimRight(enc, "=")
+	case "urlsafe":
+		enc = strings.NewReplacer("+", "-", "/", "_").Replace(enc)
+	case "lines":
+		var sb strings.Builder
+		for i := 0; i < len(enc); i += 76 {
+			j := i + 76
+			if j > len(enc) {
+				j = len(enc)
+			}
+			sb.WriteString(enc[i:j])
+			sb.WriteString([]string{"\n", "\r\n"}[c.Seed%2])
+		}
+		enc = sb.String()
 	}
 	sp := w.NewSP()
 	if !cfg.IssuerCfg {
